@@ -92,6 +92,23 @@ BVD_EDIT = ["bvd.resize", "bvd.ones", "bvd.is_zero"]
 GROUPS["bvd_defaults"] = G("bvd_defaults", BVD_PRELUDE, BVD_BASE + stub(BVD_CORE + BVD_COUNT + BVD_EDIT + ["bvd.copy_range"]) + verify(BVD_DEFAULTS))
 GROUPS["bvd_defaults"]["features"] = "#![feature(allocator_api)]"
 
+def word_j():
+    return ("word.rs", {"I": "{J}", "X": "_{J}"})
+
+def int_impl_j(ctx):
+    """stub impl Constants/Integer for the secondary word type J (only if it differs from I)"""
+    if ctx["J"] == ctx["I"]:
+        return []
+    over = {"I": "{J}", "X": "_{J}"}
+    return [("decl", "int.constants", over)] + [("stub", u, over) for u in INT_METHODS]
+
+IARRAY_PRELUDE = ["iarray.rs", word_j(), "chunk.rs"]
+def slice_ia(mode="stub"):
+    return [(mode, "slice.int_len"), (mode, "slice.get_int"), (mode, "slice.set_int")]
+
+GROUPS["bvf_iarray"] = dict(name="bvf_iarray", prelude=BVF_PRELUDE + IARRAY_PRELUDE,
+    items=lambda ctx: BVF_BASE + int_impl_j(ctx) + stub(BVF_CORE) + slice_ia() + verify(["bvf.int_len", "bvf.get_int"]))
+
 # -------------------------------------------------------------------------------------------------
 # property -> jobs
 TYPES6 = ["u8", "u16", "u32", "u64", "u128", "usize"]
